@@ -42,13 +42,15 @@ pub enum Kind {
     /// `delay(N, phasor(P), D)`: a stateful call inline as the delay's input; an inner edit resizes
     /// the delay line, leaving the phasor call site untouched
     DlySrc,
+    /// two stateful calls inside a tuple expression
+    TupCalls,
 }
 
 /// Kinds used for generation. `Kind::Gate` (stateful calls in both arms of an `if`) is NOT in this
 /// list: on the pinned tree the VM underflows its state position on such programs (panic with
 /// overflow checks, heap corruption / abort without) even in a fault-free run. That is a crash of
 /// an accepted program (C03/C05 territory, not claimed here) and would only kill workers.
-pub const ALL_KINDS: [Kind; 22] = [
+pub const ALL_KINDS: [Kind; 23] = [
     Kind::Counter,
     Kind::Leaky,
     Kind::Lag2,
@@ -71,6 +73,7 @@ pub const ALL_KINDS: [Kind; 22] = [
     Kind::MainCl,
     Kind::Duo,
     Kind::DlySrc,
+    Kind::TupCalls,
 ];
 
 #[derive(Clone, Copy, Debug, PartialEq, Serialize, Deserialize)]
@@ -160,6 +163,7 @@ impl Voice {
             Kind::MainCl => "maincl".into(),
             Kind::Duo => format!("duo{}", self.id),
             Kind::DlySrc => format!("dlysrc{}", self.id),
+            Kind::TupCalls => "tupcalls".into(),
         };
         base
     }
@@ -184,7 +188,7 @@ impl Voice {
             Kind::Echo => vec![x, lit(self.p[0])],
             Kind::EchoMod => vec![x, lit(self.p[0]), lit(self.p[1])],
             Kind::Pair => vec![lit(self.p[0])],
-            Kind::Nest | Kind::Deep | Kind::CntMem => vec![lit(self.p[0])],
+            Kind::Nest | Kind::Deep | Kind::CntMem | Kind::TupCalls => vec![lit(self.p[0])],
             Kind::Late | Kind::LateMem => vec![lit(self.p[0]), lit(self.p[1])],
             Kind::Gate => vec![lit(self.p[0]), lit(self.p[1]), lit(self.p[2])],
             Kind::Comb => vec![x, lit(self.p[0]), lit(self.p[1])],
@@ -259,6 +263,13 @@ impl Voice {
                 "fn pair(a){\n  let (p,q) = self\n  (q + a, p)\n}".into(),
             )],
             Kind::Nest => vec![cnt, nest],
+            Kind::TupCalls => vec![
+                cnt,
+                (
+                    "tupcalls".into(),
+                    "fn tupcalls(inc){\n  let (a, b) = (cnt(inc), cnt(inc * 2.0))\n  a - b * 0.25\n}".into(),
+                ),
+            ],
             Kind::Gate => vec![
                 cnt,
                 phasor,
@@ -394,7 +405,7 @@ impl Model {
     pub fn zero(v: &Voice) -> Model {
         let ns = match v.kind {
             Kind::Counter | Kind::Leaky | Kind::Clk | Kind::SrPhase | Kind::ArrPhase | Kind::GlobK | Kind::MainCl => 1,
-            Kind::Lag2 | Kind::Mfb | Kind::Pair | Kind::Nest | Kind::CntMem | Kind::Late => 2,
+            Kind::Lag2 | Kind::Mfb | Kind::Pair | Kind::Nest | Kind::CntMem | Kind::Late | Kind::TupCalls => 2,
             Kind::Gate | Kind::Wide | Kind::Deep | Kind::Mmf | Kind::LateMem => 3,
             Kind::Echo | Kind::Duo => 0,
             Kind::EchoMod | Kind::Comb | Kind::DlySrc => 1,
@@ -503,6 +514,11 @@ impl Model {
                 self.s[1] += p[0] * 0.5;
                 self.s[0] * 2.0 + self.s[1]
             }
+            Kind::TupCalls => {
+                self.s[0] += p[0];
+                self.s[1] += p[0] * 2.0;
+                self.s[0] - self.s[1] * 0.25
+            }
             Kind::Gate => {
                 let ph = Self::phasor(&mut self.s[0], p[0]);
                 // both arms of an `if` overlay the same state region (language design: the branch
@@ -594,7 +610,7 @@ pub fn gen_voice(rng: &mut Rng, id: u32, kind: Kind, n_in: u32, max_delay: u32) 
     };
     let mut p = [0.0; 3];
     match kind {
-        Kind::Counter | Kind::Pair | Kind::Nest | Kind::Deep | Kind::CntMem | Kind::Wide | Kind::Clk => {
+        Kind::Counter | Kind::Pair | Kind::Nest | Kind::Deep | Kind::CntMem | Kind::Wide | Kind::Clk | Kind::TupCalls => {
             p[0] = small(rng)
         }
         Kind::SrPhase => p[0] = *rng.pick(&[110.0, 440.0, 1000.0, 12000.0]),
@@ -667,7 +683,7 @@ pub fn gen_voice(rng: &mut Rng, id: u32, kind: Kind, n_in: u32, max_delay: u32) 
 /// has no editable constant.
 pub fn tweak_constant(rng: &mut Rng, v: &mut Voice) -> bool {
     match v.kind {
-        Kind::Counter | Kind::Pair | Kind::Nest | Kind::Deep | Kind::CntMem | Kind::Wide | Kind::Clk | Kind::SrPhase | Kind::GlobK | Kind::MainCl => {
+        Kind::Counter | Kind::Pair | Kind::Nest | Kind::Deep | Kind::CntMem | Kind::Wide | Kind::Clk | Kind::SrPhase | Kind::GlobK | Kind::MainCl | Kind::TupCalls => {
             v.p[0] += (rng.range(1, 8) as f64) * 0.25;
             true
         }
